@@ -15,8 +15,15 @@ from checks import dagexec_p1, seqexec  # noqa
 
 
 def random_program(rng):
-    r, c = rng.choice([(6, 6), (4, 9), (8, 4)])
-    inp = dict(shape=[r, c], chunks=[rng.randint(1, r), rng.randint(1, c)], dtype="float64", seed=rng.randint(0, 99), src="random")
+    if rng.random() < 0.3:      # 3-d block grids
+        shp = rng.choice([[6, 6, 6], [4, 4, 6], [2, 6, 4]])
+        ch = [rng.choice([1, 2, 3]), rng.choice([2, 3]), rng.choice([1, 2, 3])]
+        inp = dict(shape=shp, chunks=ch, dtype="float64", seed=rng.randint(0, 99), src="random")
+        steps = [dict(op="sum", args=[0], kw=dict(axis=0))]
+        prog = dict(inputs=[inp], steps=steps, outs=[1], family="random-input")
+        return prog, programs.Interp(__import__("numpy"), False).run(prog)
+    r, c = rng.choice([(6, 6), (4, 12), (8, 4), (2, 12), (4, 9), (6, 12)])
+    inp = dict(shape=[r, c], chunks=[rng.choice([1, 2, 3, r]), rng.choice([1, 2, 3])], dtype="float64", seed=rng.randint(0, 99), src="random")
     steps = rng.choice([
         [dict(op="sum", args=[0], kw=dict(axis=0))],
         [dict(op="rechunk", args=[0], kw=dict(chunks=[r, 1])), dict(op="max", args=[1], kw=dict(axis=1))],
@@ -26,6 +33,18 @@ def random_program(rng):
     prog = dict(inputs=[inp], steps=steps, outs=[len(steps)], family="random-input")
     nv = programs.Interp(__import__("numpy"), False).run(prog)
     return prog, nv
+
+
+def structured_reduction(rng):
+    """Multi-round reductions with structured-dtype intermediates (mean / var / argmax), usually unfused."""
+    import numpy as np
+    r, c = rng.choice([(8, 8), (8, 4), (16, 2)])
+    inp = dict(shape=[r, c], chunks=[rng.choice([1, 2]), rng.choice([1, 2])], dtype="float64", seed=rng.randint(0, 9), pattern="lin",
+               src="asarray")
+    op = rng.choice(["mean", "var", "argmax"])
+    kw = dict(axis=rng.choice([0, 1])) if op == "argmax" else dict(axis=rng.choice([None, 0, 1]))
+    prog = dict(inputs=[inp], steps=[dict(op=op, args=[0], kw=kw)], outs=[1], family="structured-reduction", optimize=False)
+    return prog, programs.Interp(np, False).run(prog)
 
 
 def run(chk):
@@ -42,7 +61,9 @@ def run(chk):
     while len(docs) < n and tries < n * 3:
         tries += 1
         m = tries % 5
-        if m == 0:
+        if m == 0 and tries % 2 == 0:
+            prog, nv = structured_reduction(rng)
+        elif m == 0:
             prog, nv = random_program(rng)
         elif m in (1, 2):
             prog, nv = programs.structured(rng)
@@ -55,7 +76,7 @@ def run(chk):
         for _ in range(per):
             pk = 0.1 if (chk.tier == "thorough" or len(docs) % 6 == 0) else 0.0
             r = seqexec.run_adversarial(prog, nv, seed=rng.randint(0, 10 ** 6), order=rng.choice(["shuffle", "shuffle", "rev"]),
-                                        repeats=0.3, pickle_p=pk, optimize=rng.random() < 0.6, with_reference=True)
+                                        repeats=0.3, pickle_p=pk, optimize=prog.get('optimize', rng.random() < 0.6), with_reference=True, recreate=True)
             if r is None:
                 break
             if "doc" not in r:
